@@ -199,14 +199,44 @@ Qed.
 
 (* ------------------------------------------------------------------ 4. monotonicity *)
 (* direction in which a limit option of a probe is "more permissive": true = larger values report less *)
-Definition limit_dir (p : probe) (o : string) : option bool :=
+Definition mentions (p : probe) (o : string) : bool := smem o (probe_opts p).
+Definition agree_dir (a b : option bool) : option bool :=
+  match a, b with Some x, Some y => if Bool.eqb x y then Some x else None | _, _ => None end.
+Fixpoint limit_dir (p : probe) (o : string) : option bool :=
   match p with
   | PGt _ o' | PGe _ o' => if String.eqb o o' then Some true else None
   | PLe _ o' => if String.eqb o o' then Some false else None
   | PRange _ a mx => if String.eqb o mx then (if String.eqb o a then None else Some true) else None
+  | POr a b | PAnd a b =>
+    match mentions a o, mentions b o with
+    | false, false => None
+    | true, false => limit_dir a o
+    | false, true => limit_dir b o
+    | true, true => agree_dir (limit_dir a o) (limit_dir b o)
+    end
   | _ => None
   end.
-Definition mentions (p : probe) (o : string) : bool := smem o (probe_opts p).
+
+Lemma mentions_app a b o : smem o (probe_opts a ++ probe_opts b) = mentions a o || mentions b o.
+Proof. apply smem_app. Qed.
+
+(* a combined probe has a direction for [o] only when each part that mentions [o] has that direction *)
+Lemma combined_dir a b o up :
+  (smem o (probe_opts a ++ probe_opts b) = false
+   \/ match mentions a o, mentions b o with
+      | false, false => None
+      | true, false => limit_dir a o
+      | false, true => limit_dir b o
+      | true, true => agree_dir (limit_dir a o) (limit_dir b o)
+      end = Some up) ->
+  (mentions a o = false \/ limit_dir a o = Some up) /\ (mentions b o = false \/ limit_dir b o = Some up).
+Proof.
+  rewrite mentions_app. intros [D|D].
+  - apply orb_false_iff in D. destruct D as [-> ->]. tauto.
+  - destruct (mentions a o), (mentions b o); try discriminate; try tauto.
+    unfold agree_dir in D. destruct (limit_dir a o) as [x|], (limit_dir b o) as [y|]; try discriminate.
+    destruct (Bool.eqb x y) eqn:E; [|discriminate]. apply Bool.eqb_prop in E. subst y. tauto.
+Qed.
 
 Lemma fires_mono opts r1 r2 ms p o z1 z2 up :
   (forall o', o' <> o -> r1 o' = r2 o') ->
@@ -216,21 +246,31 @@ Lemma fires_mono opts r1 r2 ms p o z1 z2 up :
   fires opts r2 ms p = true -> fires opts r1 ms p = true.
 Proof.
   intros Hag E1 E2 D Hle.
-  destruct D as [D|D].
-  - intros F. rewrite <- F. apply fires_ext. intros o' Ho'. apply Hag. intros ->.
-    unfold mentions in D. apply smem_false_notin in D. contradiction.
-  - destruct p; cbn [limit_dir] in D; try discriminate.
-    + destruct (String.eqb_spec o opt) as [<-|]; [|discriminate]. injection D as <-.
-      cbn [fires]. rewrite E1, E2. destruct (assoc m ms); [|discriminate]. rewrite !Z.ltb_lt. lia.
-    + destruct (String.eqb_spec o opt) as [<-|]; [|discriminate]. injection D as <-.
-      cbn [fires]. rewrite E1, E2. destruct (assoc m ms); [|discriminate]. rewrite !Z.leb_le. lia.
-    + destruct (String.eqb_spec o opt) as [<-|]; [|discriminate]. injection D as <-.
-      cbn [fires]. rewrite E1, E2. destruct (assoc m ms); [|discriminate]. rewrite !Z.leb_le. lia.
-    + destruct (String.eqb_spec o mx) as [<-|]; [|discriminate].
-      destruct (String.eqb_spec o allowed) as [|Na]; [discriminate|]. injection D as <-.
-      cbn [fires]. rewrite E1, E2. rewrite (Hag allowed) by (intros ->; contradiction).
-      destruct (assoc m ms); [|discriminate].
-      rewrite !andb_true_iff, !negb_true_iff, !andb_false_iff, !Z.leb_gt. intros [Ha [Hz|Hz]]; split; try exact Ha; lia.
+  assert (U : forall p', mentions p' o = false -> fires opts r2 ms p' = true -> fires opts r1 ms p' = true).
+  { intros p' D' F. rewrite <- F. apply fires_ext. intros o' Ho'. apply Hag. intros ->.
+    unfold mentions in D'. apply smem_false_notin in D'. contradiction. }
+  revert D.
+  induction p as [m|m opt|m opt|m opt|m opt|m allowed mx|m opt|m opt|a IHa b IHb|a IHa b IHb]; intros D.
+  all: try (destruct D as [D|D]; [now apply U|cbn [limit_dir] in D; discriminate]).
+  - destruct D as [D|D]; [now apply U|]. cbn [limit_dir] in D.
+    destruct (String.eqb_spec o opt) as [<-|]; [|discriminate]. injection D as <-.
+    cbn [fires]. rewrite E1, E2. destruct (assoc m ms); [|discriminate]. rewrite !Z.ltb_lt. lia.
+  - destruct D as [D|D]; [now apply U|]. cbn [limit_dir] in D.
+    destruct (String.eqb_spec o opt) as [<-|]; [|discriminate]. injection D as <-.
+    cbn [fires]. rewrite E1, E2. destruct (assoc m ms); [|discriminate]. rewrite !Z.leb_le. lia.
+  - destruct D as [D|D]; [now apply U|]. cbn [limit_dir] in D.
+    destruct (String.eqb_spec o opt) as [<-|]; [|discriminate]. injection D as <-.
+    cbn [fires]. rewrite E1, E2. destruct (assoc m ms); [|discriminate]. rewrite !Z.leb_le. lia.
+  - destruct D as [D|D]; [now apply U|]. cbn [limit_dir] in D.
+    destruct (String.eqb_spec o mx) as [<-|]; [|discriminate].
+    destruct (String.eqb_spec o allowed) as [|Na]; [discriminate|]. injection D as <-.
+    cbn [fires]. rewrite E1, E2. rewrite (Hag allowed) by (intros ->; contradiction).
+    destruct (assoc m ms); [|discriminate].
+    rewrite !andb_true_iff, !negb_true_iff, !andb_false_iff, !Z.leb_gt. intros [Ha [Hz|Hz]]; split; try exact Ha; lia.
+  - unfold mentions in D at 1. cbn [probe_opts limit_dir] in D. apply combined_dir in D. destruct D as [Da Db].
+    cbn [fires]. rewrite !orb_true_iff. intros [F|F]; [left; now apply IHa|right; now apply IHb].
+  - unfold mentions in D at 1. cbn [probe_opts limit_dir] in D. apply combined_dir in D. destruct D as [Da Db].
+    cbn [fires]. rewrite !andb_true_iff. intros [Fa Fb]. split; [now apply IHa|now apply IHb].
 Qed.
 
 Lemma count_mono {A} (f g : A -> bool) l :
@@ -275,14 +315,23 @@ Qed.
 
 (* the limit options of the modelled units have one direction each; `false` = smaller is more permissive *)
 Definition documented_limits : list (string * string * bool) :=
-  [("nesting", "max_nesting_depth", true); ("srp", "max_methods", true); ("dry", "min_duplicate_lines", true);
+  [("nesting", "max_nesting_depth", true); ("srp", "max_methods", true); ("srp", "max_loc", true);
+   ("dry", "min_duplicate_lines", true); ("dry", "min_occurrences", true);
    ("magic-numbers", "max_small_integer", true); ("method-property", "max_body_statements", false);
-   ("stateless-class", "min_methods", true); ("collection-pipeline", "min_continues", true)].
+   ("stateless-class", "min_methods", true); ("collection-pipeline", "min_continues", true);
+   ("stringly-typed", "min_occurrences", true); ("stringly-typed", "min_values_for_enum", true);
+   ("stringly-typed", "max_values_for_enum", false)].
 Definition dir_eqb (a : option bool) (b : bool) : bool := match a with Some x => Bool.eqb x b | None => false end.
 Fact F_limits : forallb (fun t => match t with (u, o, up) =>
     has_opt (doc_opts u) o && negb (String.eqb o "enabled") && negb (String.eqb o "ignore")
     && forallb (fun p => negb (mentions p o) || dir_eqb (limit_dir p o) up) (unit_probes u) end) documented_limits = true.
 Proof. vm_compute. reflexivity. Qed.
+
+Fact F_type_checks :
+  lang_block_unchecked_own = ["nesting"; "srp"; "magic-numbers"; "print-statements"; "improper-logging"; "stringly-typed"]
+  /\ lang_block_unchecked_fixed = [("dry", ["python"; "typescript"; "javascript"])]
+  /\ lang_values_unvalidated = ["dry"] /\ section_type_unchecked = ["stateless-class"; "collection-pipeline"].
+Proof. repeat split; reflexivity. Qed.
 
 (* allowed-number lists: a superset never reports more *)
 Theorem allowed_list_monotone opts res1 res2 ms m o :
@@ -392,7 +441,8 @@ Proof. intros H G L. rewrite !(run_exact q _ H) by assumption. reflexivity. Qed.
    specification (the listed defects are confined to the other carriers, CLI options and the listed units). *)
 Definition unit_clean (u : string) : bool :=
   negb (has config_actual (fl "section_not_read" u)) && negb (has config_actual (fl "enabled_option_missing" u))
-  && negb (has config_actual (fl "whole_config_fallback" u)) && negb (has config_actual (fl "language_override_ignored" u)).
+  && negb (has config_actual (fl "whole_config_fallback" u)) && negb (has config_actual (fl "language_override_ignored" u))
+  && negb (has config_actual (fl "language_block_value_not_validated" u)) && negb (has config_actual (fl "non_mapping_section_crashes" u)).
 
 Definition clean_units : list string := filter unit_clean units.
 Example clean_units_are :
@@ -409,10 +459,12 @@ Theorem actual_partial c :
      no_type_error (doc_opts (c_unit c)) (doc_guards (c_unit c)) (spec_res c (section_of (c_unit c) raw))) ->
   (forall k raw, spec_selected c = LDoc k raw ->
      guard_status (doc_opts (c_unit c)) (doc_guards (c_unit c)) (spec_res_top c (section_of (c_unit c) raw)) = StOk) ->
+  (* nothing but a mapping is written where a language block is expected *)
+  (forall k raw, spec_selected c = LDoc k raw -> forall l, nonmap (get l (section_of (c_unit c) raw)) = false) ->
   run config_actual c = spec c.
 Proof.
-  intros U G L P D O Sd T V.
-  unfold unit_clean in U. rewrite !andb_true_iff, !negb_true_iff in U. destruct U as [[[U1 U2] U3] U4].
+  intros U G L P D O Sd T V B.
+  unfold unit_clean in U. rewrite !andb_true_iff, !negb_true_iff in U. destruct U as [[[[[U1 U2] U3] U4] U5] U6].
   apply run_confined; [|exact G|exact L].
-  constructor; try assumption; try (right; assumption).
+  constructor; try assumption; try (right; assumption). right. split; assumption.
 Qed.
